@@ -252,3 +252,62 @@ func VerifH_C19_heartbeat_v4_on_real_timers() {
 func VerifH_C19_heartbeat_v3_on_real_timers() {
 	verif.RunTimed(func() { verif.RealTimers(); c07v3(3) })
 }
+
+// c07v3AfterUpgrade: a revision-3 session completes a transport upgrade (which clears the
+// pong deadline of the old transport), the client then pings on the new transport at a
+// symbolic instant and falls silent: the ping is answered, and the session is closed with
+// 'ping timeout' exactly one interval plus one timeout after that ping, not earlier.
+func c07v3AfterUpgrade(realTimers bool) {
+	if realTimers {
+		verif.RealTimers()
+	}
+	I, T := verif.Int64(), verif.Int64()
+	verif.Assume(I >= 1 && I <= 1<<40 && T >= 1 && T <= 1<<40)
+	sockWorldOpts = func(o *config.ServerOptions) {
+		o.SetPingInterval(time.Duration(I))
+		o.SetPingTimeout(time.Duration(T))
+		o.SetUpgradeTimeout(time.Duration(I + T))
+	}
+	sw := newSockWorld(transports.POLLING, "3")
+	sockWorldOpts = nil
+	rec := &evRec{}
+	rec.listen(sw.sock, "close", "upgrade", "heartbeat")
+	ctx, _ := newCtx("GET", "/engine.io/")
+	ctx.Query().Set("transport", transports.WEBSOCKET)
+	ctx.Query().Set("EIO", "3")
+	ctx.Query().Set("sid", sw.sock.Id())
+	cand := newFakeTransport(transports.WEBSOCKET, ctx)
+	cand.onSend = asyncComplete
+	sw.sock.MaybeUpgrade(cand)
+	cand.OnPacket(probePing())
+	verif.Settle()
+	cand.OnPacket(&packet.Packet{Type: packet.UPGRADE, Data: types.NewStringBufferString("")})
+	verif.Settle()
+	verif.Assert(rec.count("upgrade") == 1 && sw.sock.Transport() == transports.Transport(cand), "upgraded")
+	t := verif.Int64()
+	verif.Assume(t >= verif.Now() && t < I+T)
+	verif.SleepUntil(t)
+	verif.Assert(rec.count("close") == 0, "open until the client's ping")
+	n := len(cand.flat())
+	cand.OnPacket(&packet.Packet{Type: packet.PING})
+	verif.Settle()
+	pk := cand.flat()
+	verif.Assert(len(pk) == n+1 && pk[n].Type == packet.PONG && rec.count("heartbeat") == 1, "the ping on the new transport is answered with a pong")
+	deadline := t + I + T
+	verif.SleepUntil(deadline - 1)
+	verif.Settle()
+	verif.Assert(rec.count("close") == 0, "not closed before the deadline")
+	verif.SleepUntil(deadline)
+	verif.Settle()
+	verif.Assert(rec.count("close") == 1, "a silent revision-3 peer is closed exactly interval+timeout after its last ping, also after an upgrade")
+	if rec.count("close") == 1 {
+		r, _ := rec.args[rec.first("close")][0].(string)
+		verif.Assert(r == "ping timeout", "with reason 'ping timeout'")
+	}
+}
+
+func VerifH_C07_v3_after_upgrade() { verif.RunTimed(func() { c07v3AfterUpgrade(false) }) }
+
+// the same on the repository's own utils/timer.go (runtime-timer model) instead of the
+// contract-level timer model: the heartbeat depends on Refresh re-arming a cleared timer
+func VerifH_C07_v3_after_upgrade_real_timers() { verif.RunTimed(func() { c07v3AfterUpgrade(true) }) }
